@@ -464,7 +464,13 @@ J_time_diff(e) ==
   IN R(<<e.a.entry, N(D3Sign(d) + 1), B(t1[4] # t2[4])>>,
        IF p.k = "exc" THEN << <<"unexpected-exception", p.names>> >>
        ELSE IF p.k # "dur" THEN << <<"kind", p.k>> >>
-       ELSE V("difference", p.ts = want, want))
+       ELSE V("difference", p.ts = want, want)
+            \* the components of the returned Duration (an AbsoluteDuration for abs=True) spell the same difference
+            \o (IF "remaining_seconds" \in DOMAIN p
+                THEN V("components", CompsOf(p) = Breakdown(want), Breakdown(want))
+                     \o V("invert", p.invert = (IF e.a.entry \in {"diff_abs", "diff_default"} THEN (IF D3Sign(d) < 0 THEN 1 ELSE 0)
+                                                ELSE IF D3Sign(d) < 0 THEN 1 ELSE 0), "invert flags a negative difference")
+                ELSE <<>>))
 \* closest()/farthest(): the chosen candidate must be at least as close (far) as the other
 J_time_pick(e) ==
   LET t == e.pre[1].w  a == e.pre[2].w  b == e.pre[3].w  p == e.post
